@@ -23,6 +23,13 @@ pub struct World {
     pub old_versions: BTreeMap<u16, Vec<u8>>,
 }
 const TYPES: [u8; 6] = [0x1b, 0x0f, 0x02, 0x03, 0x05, 0x86];
+/// now and then a section that claims to be one of several (section_number / last_section_number other than 0 / 0): the
+/// table processors treat every section as a whole table, whatever these say
+fn renumber(mut s: Vec<u8>, rng: &mut Rng) -> Vec<u8> {
+    if rng.chance(1, 6) { let last = rng.range(1, 3) as u8; let num = rng.below(last as u64 + 1) as u8; s[6] = num; s[7] = last;
+        let n = s.len(); let c = crc32_mpeg(&s[..n - 4]); s[n - 4..].copy_from_slice(&c.to_be_bytes()); }
+    s
+}
 
 impl World {
     pub fn new(rng: &mut Rng, nprog: usize, shared: bool) -> World {
@@ -45,13 +52,13 @@ impl World {
         if rng.chance(1, 5) { let nit = pool.pop().unwrap(); progs.push((0, nit)); }
         World { ts_id: rng.below(0x10000) as u16, pat_version: rng.below(32) as u8, progs, pmts, pool, mux: Mux::new(), notes: vec![], last_pat: vec![], last_pmt: BTreeMap::new(), retired: vec![], old_versions: BTreeMap::new() }
     }
-    fn pat_section(&self, rng: &mut Rng) -> Vec<u8> { section(0, self.ts_id, self.pat_version, true, &pat_body(&self.progs, rng)) }
+    fn pat_section(&self, rng: &mut Rng) -> Vec<u8> { renumber(section(0, self.ts_id, self.pat_version, true, &pat_body(&self.progs, rng)), rng) }
     fn pmt_section(&self, pid: u16, big: bool, rng: &mut Rng) -> Vec<u8> {
         let p = &self.pmts[&pid];
         let mut ss: Vec<(u8, u16, Vec<u8>)> = p.streams.iter().map(|(t, e)| (*t, *e, vec![])).collect();
         if big { for s in ss.iter_mut() { s.2 = descriptor(0x80, &vec![0x55; 60]); } }   // multi-packet
         let pcr = p.streams.first().map(|s| s.1).unwrap_or(0x1fff);
-        section(2, p.pn, p.version, true, &pmt_body(pcr, &[], &ss, rng))
+        renumber(section(2, p.pn, p.version, true, &pmt_body(pcr, &[], &ss, rng)), rng)
     }
     /// the PMT of `pid` padded with private program descriptors to exactly `target` bytes (None if it cannot be done)
     fn pmt_section_sized(&self, pid: u16, target: usize, rng: &mut Rng) -> Option<Vec<u8>> {
@@ -417,6 +424,24 @@ pub fn gen_c11(tier: &str, seed: u64, emit: &mut dyn FnMut(String)) {
         else { let p = w.pmts.get_mut(&pmt_pid).unwrap(); p.version = (p.version + 1) & 31; w.send_pmt(pmt_pid, "intact", 0, big, &mut rng); }
         if first_is_damaged && !target_pat { /* PAT already sent */ } else if first_is_damaged { let l = w.live_pmt_pids(); for q in l { w.send_pmt(q, "new", 0, big, &mut rng); } }
         w.probes(&mut rng);
+        if i % 7 == 2 && !target_pat {
+            // three steps on the map PID: a multi-packet version cut short after its first packet, a single-packet newer
+            // version, then an intact multi-packet newest version (which must be applied)
+            let q = pmt_pid;
+            { let m = w.pmts.get_mut(&q).unwrap(); m.version = (m.version + 1) & 31; }
+            let s1 = w.pmt_section(q, true, &mut rng);
+            let first = w.mux.pkts.len(); w.mux.psi(q, &s1, 0, 0, &mut rng);
+            if w.mux.pkts.len() - first >= 2 {
+                w.mux.pkts.truncate(first + 1);
+                let d = w.pmt_desc(q); let v = w.pmts[&q].version;
+                w.notes.push(format!("T|{}|{}|{}|dmg|{}|{}", q, first, first, v, d));
+                { let m = w.pmts.get_mut(&q).unwrap(); m.version = (m.version + 1) & 31; }
+                w.send_pmt(q, "intact", 0, false, &mut rng);
+                { let m = w.pmts.get_mut(&q).unwrap(); m.version = (m.version + 1) & 31; }
+                w.send_pmt(q, "intact", 0, true, &mut rng);
+                w.probes(&mut rng);
+            } else { w.mux.pkts.truncate(first); let m = w.pmts.get_mut(&q).unwrap(); m.version = (m.version + 31) & 31; }
+        }
         emit(w.finish(0, &mut rng));
     }
 }
